@@ -1,0 +1,18 @@
+//go:build verif
+
+package eio
+
+// VerifWrapClientTransport replaces the current transport of a client socket created by Dial with
+// wrap(current), under the socket's transport write lock. The verification harness uses it to put a
+// transport whose Discard / Send take a while in the place of the real one (the wrapper embeds the
+// real transport), so that what happens around the swap of an upgrade no longer depends on the scheduler.
+func VerifWrapClientTransport(socket ClientSocket, wrap func(ClientTransport) ClientTransport) bool {
+	s, ok := socket.(*clientSocket)
+	if !ok {
+		return false
+	}
+	s.transportMu.Lock()
+	defer s.transportMu.Unlock()
+	s.transport = wrap(s.transport)
+	return true
+}
